@@ -82,7 +82,7 @@ func wfVal(v *val.Val, want *types.Type, path string) string {
 	if v.Type == nil {
 		return path + ": value without type"
 	}
-	if want != nil && !types.Equals(want, v.Type) {
+	if want != nil && !sameTypeIndep(want, v.Type) {
 		return fmt.Sprintf("%s: value of type %s where %s is declared", path, v.Type, want)
 	}
 	switch v.Type.Kind {
@@ -129,4 +129,55 @@ func wfVal(v *val.Val, want *types.Type, path string) string {
 		return ""
 	}
 	return fmt.Sprintf("%s: value of kind %s", path, v.Type.Kind)
+}
+
+// sameTypeIndep is the harness's own structural type equality (object fields by name), so that
+// the well-formedness oracle does not depend on the repository's types.Equals.
+func sameTypeIndep(a, b *types.Type) bool {
+	if a == nil || b == nil {
+		return a == b
+	}
+	if a.Kind != b.Kind {
+		return false
+	}
+	switch a.Kind {
+	case types.KTyVar:
+		return a.TyVar().Name == b.TyVar().Name
+	case types.KList:
+		return sameTypeIndep(a.List().El, b.List().El)
+	case types.KMaybe:
+		return sameTypeIndep(a.Maybe().Elem, b.Maybe().Elem)
+	case types.KMap:
+		return sameTypeIndep(a.Map().Key, b.Map().Key) && sameTypeIndep(a.Map().Val, b.Map().Val)
+	case types.KObj:
+		fa, fb := a.Obj().Fields, b.Obj().Fields
+		if len(fa) != len(fb) {
+			return false
+		}
+		for _, x := range fa {
+			found := false
+			for _, y := range fb {
+				if x.Name == y.Name {
+					found = sameTypeIndep(x.Val, y.Val)
+					break
+				}
+			}
+			if !found {
+				return false
+			}
+		}
+		return true
+	case types.KFun:
+		pa, pb := a.Fun().Param, b.Fun().Param
+		if len(pa) != len(pb) {
+			return false
+		}
+		for i := range pa {
+			if !sameTypeIndep(pa[i], pb[i]) {
+				return false
+			}
+		}
+		return sameTypeIndep(a.Fun().Return, b.Fun().Return)
+	}
+	return true
 }
